@@ -822,17 +822,26 @@ class SectionToPbScalars(WriterBase):
     target = "section.py::Section._to_protobuf"
     msg = "Section"
     params = {"self": "ref:Section"}
-    drop_stmt = staticmethod(_is_fill)
-    part_note = "all statements except the fills of byte_intervals and section_flags"
+    drop_stmt = staticmethod(lambda src: src.startswith("proto_section.byte_intervals.extend("))
+    part_note = "all statements except the fill of byte_intervals"
 
     def pre(self, c, a):
         s = a.self.t
-        return {"in_schema_range": z3.And(is_VUuid(c.get("uuid", s)), is_VStr(c.get("name", s)))}
+        x = fresh("x", Val)
+        flags = z3.Select(c.arr("Section.flags"), s)
+        return {"in_schema_range": z3.And(is_VUuid(c.get("uuid", s)), is_VStr(c.get("name", s)),
+                                          z3.ForAll([x], z3.Implies(z3.Select(flags, x), is_VEnum(x))))}
 
     def post(self, c0, c1, a, res):
         s, p = a.self.t, res.t
+        x = fresh("x", Val)
+        y = fresh("y", Val)
+        flags = z3.Select(c0.arr("Section.flags"), s)
+        written = z3.Select(c1.arr("pb.Section.section_flags#set"), p)
         return {"new_message": NEW(c0, a, p), "uuid": f(c1, "Section", "uuid", p) == uuid_blob(c0.get("uuid", s)),
-                "name": f(c1, "Section", "name", p) == c0.get("name", s)}
+                "name": f(c1, "Section", "name", p) == c0.get("name", s),
+                "flags_are_the_numbers_of_the_section_flags": z3.ForAll([x], z3.Select(written, x) == z3.Exists(
+                    [y], z3.And(z3.Select(flags, y), x == VInt(enum_(y)))))}
 
 
 class IrToPbScalars(WriterBase):
@@ -842,23 +851,42 @@ class IrToPbScalars(WriterBase):
     props = ("C02", "C01", "C17")
     params = {"self": "ref:IR"}
     selects = staticmethod(lambda self_cls, args, kwargs=None: False)
-    segment = (lambda src: src.startswith("proto_ir = "), lambda src: src.startswith("proto_ir.modules.extend("))
-    part_note = "the statements before the module list is filled (uuid, version)"
+    drop_stmt = staticmethod(lambda src: src.startswith(("proto_ir.modules.extend(", "proto_cfg.edges.extend(",
+                                                         "self._write_protobuf_aux_data(")))
+    part_note = "all statements except the fills of modules, cfg.edges and aux_data"
+
+    def __init__(self):
+        super().__init__()
+        from pyvc.schema import REGION_KEYS
+        self.modifies = lambda c0, a: dict(pbkeys(c0, "IR", "CFG"), **{k: None for k in REGION_KEYS})
+
+    def region_invariant(self, c):
+        from specs import forest
+        return forest.inv_region(c)
 
     def pre(self, c, a):
+        from contracts.aggregates import Aggregate
         i = a.self.t
-        return {"in_schema_range": z3.And(is_VUuid(c.get("uuid", i)), in_rng(c.get("version", i), RANGES["uint32"]))}
+        n = fresh("n", Int)
+        out = Aggregate("IR", "cfg_nodes").pre(c, a)
+        out["in_schema_range"] = z3.And(is_VUuid(c.get("uuid", i)), in_rng(c.get("version", i), RANGES["uint32"]),
+                                        z3.ForAll([n], z3.Implies(c.isinst(n, "Node"), is_VUuid(c.get("uuid", n)))))
+        return out
 
     def post(self, c0, c1, a, res):
-        return {}
-
-    def frame_obligations(self, eng, c0, c1, a):
-        # the segment has no result: its effect is stated on the only message allocated in it
-        i = a.self.t
-        p = fresh("p", Int)
-        return {"uuid_and_version_fields": z3.ForAll([p], z3.Implies(
-            z3.And(NEW(c0, a, p), z3.Select(c1.arr("$alive"), p)),
-            z3.And(f(c1, "IR", "uuid", p) == uuid_blob(c0.get("uuid", i)), f(c1, "IR", "version", p) == c0.get("version", i))))}
+        from contracts.aggregates import Aggregate
+        i, p = a.self.t, res.t
+        cfg = f(c1, "IR", "cfg", p)
+        x = fresh("x", Val)
+        v = fresh("v", Val)
+        member = Aggregate("IR", "cfg_nodes").yields(c0, a, v)
+        written = z3.Select(c1.arr("pb.CFG.vertices#set"), ref(cfg))
+        return {"new_message": NEW(c0, a, p),
+                "uuid": f(c1, "IR", "uuid", p) == uuid_blob(c0.get("uuid", i)),
+                "version": f(c1, "IR", "version", p) == c0.get("version", i),
+                "cfg_present": is_VRef(cfg),
+                "vertices_name_every_cfg_node_of_the_ir": z3.ForAll([x], z3.Select(written, x) == z3.Exists(
+                    [v], z3.And(member, x == uuid_blob(c0.get("uuid", ref(v))))))}
 
 
 class ModuleEntryPoint(IoContract):
